@@ -317,3 +317,198 @@ PROPS["C10"]["kani"] += [SCH["rand_budget"], SCH["rand_repro"], SCH["rand_next"]
 PROPS["C10"]["overlay_files"] += SCHED_OVERLAY
 PROPS["C10"]["assumptions"] += [A_ENV]
 PROPS["C12"]["kani"] += [SCH["portfolio_stop"]]
+
+# ---------------- C18 BatchSemaphore ----------------
+SEM = "shuttle-engine/src/future/batch_semaphore.rs"
+SEM_OVERLAY = EXE_OVERLAY + ["shuttle-engine/src/future/batch_semaphore.rs.append.rs"]
+A_SWITCH = "stub: thread::switch() -> verif_switch (counts choice points, runs the environment hook); the scheduler is not consulted"
+B_SEM = "<= 2 queued waiters, permits <= 4, 3 tasks"
+
+
+def KS(name, harness, formula, fns, tier="quick", **kw):
+    return Kb(name, harness, formula, [SEM + "::" + f for f in fns], B_SEM, tier=tier, heavy=True, timeout_s=kw.pop("timeout_s", 1500), **kw)
+
+
+SEMH = [
+    KS("C18.permits.acquire_release", "c18_permits_acquire_release",
+       "inv_PA: sum of batches == available; acquire(n) Ok <=> n == 0 or n <= available, removes exactly n; Err leaves state unchanged; release(n) adds n",
+       ["PermitsAvailable::acquire", "PermitsAvailable::release"]),
+    KS("C18.sem.try_acquire_fair", "c18_sem_try_acquire_fair",
+       "Closed if closed; queue non-empty => NoPermits (no overtaking); else Ok <=> n <= available; Ok removes exactly n; Err changes nothing; one choice point",
+       ["BatchSemaphore::try_acquire", "BatchSemaphoreState::acquire_permits"]),
+    KS("C18.sem.try_acquire_unfair", "c18_sem_try_acquire_unfair", "as fair, but a queued waiter does not block the attempt",
+       ["BatchSemaphore::try_acquire", "BatchSemaphore::reblock_if_unfair"], tier="thorough", timeout_s=3600),
+    KS("C18.sem.release_fair", "c18_sem_release_fair",
+       "fair release: hand-out strictly from the head, stops at the first waiter that does not fit; granted waiter dequeued, has_permits, task runnable; available' + granted == available + released",
+       ["BatchSemaphore::release", "BatchSemaphoreState::unblock_waiters_from_front"]),
+    KS("C18.sem.release_unfair", "c18_sem_release_unfair", "unfair release: exactly the waiters that fit become runnable; none granted or dequeued",
+       ["BatchSemaphore::release"]),
+    KS("C18.sem.close", "c18_sem_close", "close dequeues and wakes every waiter, grants nothing; later try_acquire == Closed; idempotent",
+       ["BatchSemaphore::close", "BatchSemaphore::close_no_scheduling_point"]),
+    KS("C18.sem.remove_waiter_fair_head", "c18_sem_remove_waiter_fair_head",
+       "dropping the queued head of a fair semaphore removes exactly it and hands the permits to the next waiter if they fit (nobody stranded)",
+       ["BatchSemaphore::remove_waiter"]),
+    KS("C18.sem.remove_waiter_fair_second", "c18_sem_remove_waiter_fair_second", "removing a non-head waiter changes nothing else",
+       ["BatchSemaphore::remove_waiter"], tier="thorough"),
+    KS("C18.acquire.poll_granted_or_closed", "c18_acquire_poll_granted_or_closed",
+       "a granted waiter completes with Ok on its next poll whatever happened since (incl. close); ungranted on closed => Err; one choice point on a first poll",
+       ["Acquire::poll"]),
+    KS("C18.acquire.poll_first_fair", "c18_acquire_poll_first_fair",
+       "first poll, empty queue: n <= available => Ready(Ok), exactly n removed; else Pending, enqueued at the tail with the POLLER's identity and waker; choice point always (fair)",
+       ["Acquire::poll", "BatchSemaphore::enqueue_waiter"], tier="thorough"),
+    KS("C18.acquire.poll_first_unfair", "c18_acquire_poll_first_unfair", "as fair; the choice point is skipped only when the poll blocks (blocking commutes: C02)",
+       ["Acquire::poll"], tier="thorough"),
+    KS("C18.acquire.drop_granted", "c18_acquire_drop_granted", "dropping a granted, uncompleted acquisition returns its permits", ["Acquire::drop"]),
+    KS("C18.acquire.drop_queued", "c18_acquire_drop_queued", "dropping a queued acquisition removes it from the queue, permits unchanged", ["Acquire::drop"]),
+    KS("C18.acquire.drop_completed", "c18_acquire_drop_completed", "dropping a completed acquisition changes nothing", ["Acquire::drop"], tier="thorough"),
+]
+PROPS["C18"] = {
+    "scope": "permit conservation, FIFO hand-out, no overtaking as lemmas over the contract step relation (L); the contracts themselves on the "
+             "real PermitsAvailable / BatchSemaphore / Acquire code (Kb, <= 2 waiters)",
+    "verus_units": ["semlemmas"],
+    "kani": SEMH,
+    "overlay_files": SEM_OVERLAY,
+    "assumptions": [A_BT, A_DUMMY, A_TLS, A_HEAP, A_SWITCH,
+                    "lane L mirrors the Kb contracts by inspection (both texts are in the evidence samples)"],
+    "not_decided": ["unbounded queue lengths on the real code (lane Kb is bounded; lane L is about the contracts)"],
+}
+PROPS["C02"]["kani"] += [x for x in SEMH if x["harness"] in ("c18_sem_try_acquire_fair", "c18_acquire_poll_granted_or_closed", "c18_acquire_poll_first_unfair")]
+PROPS["C02"]["overlay_files"] = SEM_OVERLAY
+
+# ---------------- shuttle-std: C04 / C05 / C06 ----------------
+STD_OVERLAY = SEM_OVERLAY + ["shuttle-std/src/sync/mutex.rs.append.rs", "shuttle-std/src/sync/rwlock.rs.append.rs",
+                             "shuttle-std/src/sync/atomic/int.rs.append.rs", "shuttle-std/src/sync/mpsc.rs.append.rs",
+                             "shuttle-std/src/sync/condvar.rs.append.rs"]
+MUTEX = "shuttle-std/src/sync/mutex.rs"
+RWLOCK = "shuttle-std/src/sync/rwlock.rs"
+ATOMIC = "shuttle-std/src/sync/atomic"
+MPSC = "shuttle-std/src/sync/mpsc.rs"
+CONDVAR = "shuttle-std/src/sync/condvar.rs"
+A_TASKSET = "assumed contract: TaskSet::{insert,remove,contains,is_empty} replaced by a set model (the BitVec inside is out of CBMC's reach)"
+
+
+def KSTD(lane_fn, name, harness, formula, fns, bound=None, tier="quick", **kw):
+    if lane_fn is K:
+        return K(name, harness, formula, fns, crate=STD, tier=tier, heavy=True, timeout_s=kw.pop("timeout_s", 1500), **kw)
+    return Kb(name, harness, formula, fns, bound, crate=STD, tier=tier, heavy=True, timeout_s=kw.pop("timeout_s", 1500), **kw)
+
+
+ATOM = [
+    KSTD(K, "C04.atomic.u8_agrees_with_std", "c04_atomic_u8_agrees_with_std",
+         "forall start value, operands, operation in {load,store,swap,compare_exchange,fetch_add,sub,and,nand,or,xor,max,min,fetch_update}: "
+         "result and final value equal std::sync::atomic::AtomicU8's; exactly one choice point before the effect",
+         [ATOMIC + "/mod.rs::Atomic::{load,store,swap,fetch_update}", ATOMIC + "/int.rs::AtomicU8::*"]),
+    KSTD(K, "C04.atomic.i16_agrees_with_std", "c04_atomic_i16_agrees_with_std", "same, AtomicI16 (signed max/min)",
+         [ATOMIC + "/int.rs::AtomicI16::*"], tier="thorough"),
+    KSTD(K, "C04.atomic.u32_agrees_with_std", "c04_atomic_u32_agrees_with_std", "same, AtomicU32", [ATOMIC + "/int.rs::AtomicU32::*"], tier="thorough"),
+    KSTD(K, "C04.atomic.i64_agrees_with_std", "c04_atomic_i64_agrees_with_std", "same, AtomicI64", [ATOMIC + "/int.rs::AtomicI64::*"], tier="thorough"),
+    KSTD(K, "C04.atomic.usize_agrees_with_std", "c04_atomic_usize_agrees_with_std", "same, AtomicUsize", [ATOMIC + "/int.rs::AtomicUsize::*"], tier="thorough"),
+]
+LOCKS = [
+    KSTD(K, "C04.mutex.try_lock", "c04_mutex_try_lock",
+         "inv_M (holder.is_some() <=> no permit): try_lock is Ok <=> free; then holder == me, 0 permits; WouldBlock leaves holder and permits unchanged; one choice point",
+         [MUTEX + "::Mutex::try_lock"]),
+    KSTD(K, "C04.mutex.unlock", "c04_mutex_unlock",
+         "dropping the guard returns the permit, clears the holder, frees the inner std lock, makes a queued waiter runnable; one choice point before the effect",
+         [MUTEX + "::MutexGuard::drop"]),
+    KSTD(K, "C04.mutex.lock_uncontended", "c04_mutex_lock_uncontended",
+         "lock() on a free mutex returns with holder == me after exactly one choice point; the inner std lock is held by the guard",
+         [MUTEX + "::Mutex::lock"]),
+    KSTD(K, "C04.rwlock.try_read_reentrant", "c04_rwlock_try_read_reentrant",
+         "a re-entrant try_read fails AND consumes no permit (the lock is left unchanged)", [RWLOCK + "::RwLock::try_lock"]),
+    KSTD(K, "C04.rwlock.try_read_free_or_other", "c04_rwlock_try_read_free_or_other",
+         "try_read succeeds when free or read-held by others: one permit taken, me added to the readers (inv_RW)", [RWLOCK + "::RwLock::try_lock"]),
+    KSTD(K, "C04.rwlock.try_read_while_written", "c04_rwlock_try_read_while_written",
+         "try_read fails while write-held; nothing changes", [RWLOCK + "::RwLock::try_lock"]),
+    KSTD(K, "C04.rwlock.try_write", "c04_rwlock_try_write",
+         "try_write succeeds exactly when the lock is free (all MAX_READS permits), else leaves it unchanged", [RWLOCK + "::RwLock::try_lock"], tier="thorough"),
+]
+PROPS["C04"] = {
+    "scope": "atomics: every operation agrees with std for all operand values, one choice point (K complete); Mutex/RwLock segments "
+             "against inv_M / inv_RW on the real semaphore (K over all holder shapes with <= 2 other tasks)",
+    "kani": [ATOM[0]] + LOCKS + ATOM[1:],
+    "overlay_files": STD_OVERLAY,
+    "assumptions": [A_BT, A_DUMMY, A_TLS, A_HEAP, A_SWITCH, A_TASKSET,
+                    "atomics: Ordering::SeqCst only (other orderings are treated identically after a one-time warning)"],
+    "not_decided": ["`for all programs at most one holder` as a trace property: follows from inv_M / inv_RW being preserved by every segment; "
+                    "the blocking paths of lock()/read()/write() (queued, woken by release) are covered through C18 only",
+                    "poisoning after a panicking holder (needs unwinding through coroutines)", "128-bit atomics, AtomicBool, AtomicPtr (macro instances of the same four primitives)"],
+}
+
+B_CH = "<= 2 messages, <= 1 waiting sender, <= 1 waiting receiver; bound in {None, 0, 1}"
+MPSCH = [
+    KSTD(K, "C06.mpsc.must_block_predicates", "c06_must_block_predicates",
+         "sender_must_block <=> full or a sender is queued or (rendezvous and no receiver waiting); receiver_must_block <=> empty or a receiver is queued",
+         [MPSC + "::Channel::sender_must_block", MPSC + "::Channel::receiver_must_block"]),
+    KSTD(Kb, "C06.mpsc.try_send_bounded1", "c06_try_send_bounded1",
+         "try_send: Disconnected if no receiver; Full exactly when a blocking send would wait (full, or a sender already queued: no overtaking); else "
+         "appended at the tail, capacity respected, waiting receiver released; Err leaves the channel unchanged; one choice point",
+         [MPSC + "::Channel::send_internal"], B_CH),
+    KSTD(Kb, "C06.mpsc.try_send_rendezvous", "c06_try_send_rendezvous", "same, rendezvous: hands off only to a waiting receiver",
+         [MPSC + "::Channel::send_internal"], B_CH),
+    KSTD(Kb, "C06.mpsc.try_send_unbounded", "c06_try_send_unbounded", "same, unbounded: never Full", [MPSC + "::Channel::send_internal"], B_CH, tier="thorough"),
+    KSTD(Kb, "C06.mpsc.try_recv_bounded1", "c06_try_recv_bounded1",
+         "try_recv: Empty / Disconnected exactly when nothing is buffered (Disconnected iff no sender left); otherwise the HEAD is delivered once "
+         "(FIFO, also after the senders are gone) and a sender blocked on the full channel is released", [MPSC + "::Channel::recv_internal"], B_CH),
+    KSTD(Kb, "C06.mpsc.try_recv_unbounded", "c06_try_recv_unbounded", "same, unbounded, 2 messages: second message becomes the head",
+         [MPSC + "::Channel::recv_internal"], B_CH, tier="thorough"),
+]
+PROPS["C06"] = {
+    "scope": "blocking predicates (K complete); non-blocking send/receive segments on the real channel state (Kb)",
+    "kani": MPSCH,
+    "overlay_files": STD_OVERLAY,
+    "assumptions": [A_BT, A_DUMMY, A_TLS, A_HEAP, A_SWITCH],
+    "not_decided": ["blocking send/recv second segments (after the wake-up) and endpoint Drop", "eventual release of blocked endpoints (liveness)"],
+}
+
+CVH = [
+    KSTD(Kb, "C05.condvar.wait_consumes_one_epoch", "c05_condvar_wait_consumes_one_epoch",
+         "the woken waiter consumes its oldest epoch; that epoch disappears from EVERY other waiter's list wherever it sits; a waiter left with none is "
+         "Waiting and blocked again (no invented wake-up), one with epochs left stays runnable; mutex released while waiting and re-held on return",
+         [CONDVAR + "::Condvar::wait"], "2 other waiters, epochs {0,1}, every combination of their lists", timeout_s=2400),
+    KSTD(Kb, "C05.condvar.notify_one", "c05_condvar_notify_one",
+         "every current waiter gets the fresh epoch at the tail of its list and becomes runnable; next_epoch + 1; one choice point",
+         [CONDVAR + "::Condvar::notify_one"], "2 waiters"),
+]
+PROPS["C05"]["kani"] += CVH
+PROPS["C05"]["overlay_files"] = STD_OVERLAY
+PROPS["C05"]["assumptions"] += [A_TLS, A_HEAP, A_SWITCH,
+                                "environment at the choice point inside Condvar::wait: the waiter table is set to a configuration two notify_one calls can produce (rely)"]
+PROPS["C05"]["not_decided"] = ["Barrier (HashSet of waiters) and Once (closure under a Mutex across coroutine switches): not brought under contract",
+                               "`always does release a waiter` as liveness"]
+PROPS["C05"]["scope"] = "park/unpark token machine complete over all states (K); Condvar epoch bookkeeping on the real code (Kb)"
+
+# C01: the data-source seeding chain is what replay relies on
+PROPS["C01"]["kani"] += [DATA["init"], DATA["chain"]]
+
+# C12: persist_failure / begin_execution (lane V) + the silent-step-bound guard (K)
+PROPS["C12"]["verus_units"] = ["failure"]
+PROPS["C12"]["scope"] = ("persist_failure emits exactly once per failure when persistence is enabled and never when disabled, for EVERY value earlier "
+                         "runs can have left in SCHEDULE_PERSISTED_AT, given begin_execution's postcondition (V, unbounded); step-bound guard and portfolio stop (K)")
+PROPS["C12"]["assumptions"] += [
+    "lane V threads the thread-locals and I/O of failure.rs through an explicit Env (SCHEDULE_PERSISTED_AT, CurrentSchedule::len, number of serialisations)",
+    "init_panic_hook calls begin_execution first and Execution::run calls init_panic_hook for every execution (by reading; neither can run under a verifier)"]
+PROPS["C12"]["not_decided"] = ["re-raising the failing task's own payload, deadlock / max-steps messages (inside Execution::run: coroutines, unwinding)",
+                               "persist_failure_to_file picks a fresh file (file system)", "PortfolioRunner (OS threads)",
+                               "replaying the emitted schedule reproduces the failure: C01"]
+
+# C15 companions (bounded, vector-clocks feature) + exec edges
+CLK = "shuttle-engine/src/runtime/task/clock.rs"
+CLKH = [
+    Kb("C15.clock.update_is_join", "c15_clock_update_is_join", "update == pointwise max with zero extension; both arguments <= result",
+       [CLK + "::VectorClock::update"], "length <= 3", features=["vector-clocks"]),
+    Kb("C15.clock.partial_cmp_exact", "c15_clock_partial_cmp_exact", "partial_cmp exact characterisation", [CLK + "::VectorClock::partial_cmp"],
+       "length <= 3", features=["vector-clocks"]),
+    Kb("C15.clock.extend_increment", "c15_clock_extend_increment", "extend zero-extends to id+1 entries; increment adds one to entry id only (strictly greater clock)",
+       [CLK + "::VectorClock::extend", CLK + "::VectorClock::increment"], "length <= 4", features=["vector-clocks"]),
+]
+PROPS["C15"]["kani_companions"] = CLKH[:2]
+PROPS["C15"]["kani"] = [CLKH[2]]
+PROPS["C15"]["overlay_files"] = ["shuttle-engine/src/runtime/task/clock.rs.append.rs"]
+PROPS["C15"]["scope"] = ("VectorClock::{new,increment,update,get,partial_cmp} + unify proved unbounded on the extracted code (V); partial order / "
+                         "least-upper-bound / growth / edge-domination lemmas (L); extend (Kb)")
+PROPS["C15"]["assumptions"] = ["A-wrap: a clock entry is < u32::MAX before increment (stated as requires)",
+                               "A1: SmallVec<[u32; N]> -> Vec<u32> in the verified text (same sequence semantics)"]
+PROPS["C15"]["not_decided"] = ["the per-primitive edges (which clock is joined where in mutex/mpsc/condvar/barrier/once/atomics/spawn/join): only the semaphore "
+                               "batches and the lemmas are covered; seeded mutant C15-mpsc-recv-clock (order of two statements in recv_internal) is NOT caught",
+                               "replay restricted to a target clock"]
